@@ -204,6 +204,26 @@ impl<Fut: Future> FuturesOrderedBounded<Fut> {
     }
 }
 
+#[cfg(futures_buffered_verif)]
+impl<Fut: Future> FuturesOrderedBounded<Fut> {
+    /// Verification only: start both position counters of an *empty* queue at `start`.
+    pub fn verif_seed_indices(&mut self, start: usize) {
+        assert!(self.is_empty());
+        self.next_incoming_index = Wrapping(start);
+        self.next_outgoing_index = Wrapping(start);
+    }
+
+    /// Verification only: `(next_outgoing_index, next_incoming_index)`.
+    pub fn verif_indices(&self) -> (usize, usize) {
+        (self.next_outgoing_index.0, self.next_incoming_index.0)
+    }
+
+    /// Verification only: address of the shared waker block.
+    pub fn verif_block(&self) -> usize {
+        self.in_progress_queue.verif_block()
+    }
+}
+
 impl<Fut: Future> Stream for FuturesOrderedBounded<Fut> {
     type Item = Fut::Output;
 
